@@ -83,3 +83,16 @@ Theorem bw_num_free_blocks_is_irrelevant :
     /\ bw_find_overlapping_no_suffix_iter V A1 h = bw_find_overlapping_no_suffix_iter V A2 h.
 Proof. exact built_nfb_irrelevant. Qed.
 Print Assumptions bw_num_free_blocks_is_irrelevant.
+
+(* ... and for the character-wise builder *)
+Theorem cw_num_free_blocks_is_irrelevant :
+  forall (V : Type) (veqb : V -> V -> bool), (forall a b, veqb a b = true <-> a = b) ->
+  forall nfb1 nfb2 (pvs : list (list N * V)) (A1 A2 : cw_automaton V),
+    4 * total_len V pvs <= U32_MAX - 1 ->
+    cw_build_with_values V Standard nfb1 pvs = Ok A1 -> cw_build_with_values V Standard nfb2 pvs = Ok A2 ->
+  forall cs, Forall scalar cs ->
+    cw_find_overlapping_iter V A1 (encode_utf8 cs) = cw_find_overlapping_iter V A2 (encode_utf8 cs)
+    /\ cw_find_iter V A1 (encode_utf8 cs) = cw_find_iter V A2 (encode_utf8 cs)
+    /\ cw_find_overlapping_no_suffix_iter V A1 (encode_utf8 cs) = cw_find_overlapping_no_suffix_iter V A2 (encode_utf8 cs).
+Proof. exact cw_built_nfb_irrelevant. Qed.
+Print Assumptions cw_num_free_blocks_is_irrelevant.
